@@ -514,6 +514,37 @@ func (cond *Condition) IntSliceValue() ([]int64, error) {
 	}
 }
 
+// unquoteDouble returns the value of the body of a double-quoted literal (quotes
+// removed). Go escape sequences are honoured as before; a body Go cannot unquote
+// (a raw newline, an unknown backslash sequence) keeps its text, with only the two
+// escapes of the grammar (\" and \\) resolved, instead of silently becoming "".
+func unquoteDouble(body string) string {
+	if s, err := strconv.Unquote(`"` + body + `"`); err == nil {
+		return s
+	}
+	return unescape(body, '"')
+}
+
+// unquoteSingle resolves the escapes the grammar defines inside single quotes
+// (\' and \\).
+func unquoteSingle(body string) string {
+	return unescape(body, '\'')
+}
+
+func unescape(body string, quote byte) string {
+	if !strings.Contains(body, `\`) {
+		return body
+	}
+	buf := make([]byte, 0, len(body))
+	for i := 0; i < len(body); i++ {
+		if body[i] == '\\' && i+1 < len(body) && (body[i+1] == quote || body[i+1] == '\\') {
+			i++
+		}
+		buf = append(buf, body[i])
+	}
+	return string(buf)
+}
+
 func formatValue(v interface{}) string {
 	switch v := v.(type) {
 	case nil:
